@@ -95,8 +95,20 @@
     fn verif_witness_shard() {
         let seed: u64 = std::env::var("VERIF_SEED").ok().and_then(|s| s.parse().ok()).unwrap_or(0);
         let mut found = vec![];
-        run::<Fifo<u64, u64, TestProperties>>("fifo", FifoConfig::default(), seed.wrapping_add(1), &mut found);
-        if found.is_empty() { run::<Lru<u64, u64, TestProperties>>("lru", LruConfig::default(), seed.wrapping_add(2), &mut found); }
+        // the real code may panic (e.g. usize underflow in the accounting) before a check fires: that is a witness too
+        let r = std::panic::catch_unwind(|| {
+            let mut f = vec![];
+            run::<Fifo<u64, u64, TestProperties>>("fifo", FifoConfig::default(), seed.wrapping_add(1), &mut f);
+            if f.is_empty() { run::<Lru<u64, u64, TestProperties>>("lru", LruConfig::default(), seed.wrapping_add(2), &mut f); }
+            f
+        });
+        match r {
+            Ok(f) => found = f,
+            Err(e) => {
+                let msg = e.downcast_ref::<String>().cloned().or_else(|| e.downcast_ref::<&str>().map(|s| s.to_string())).unwrap_or_default();
+                found.push(format!("WITNESS accounting_invariant_preserved :: random insert/remove/clear/get sequence (seed {seed}) on a 1-shard cache makes the real code panic: {msg}"));
+            }
+        }
         for f in found.iter().take(3) { println!("{f}"); }
         println!("WITNESS-SEARCH-DONE found={}", found.len());
     }
